@@ -114,15 +114,18 @@ def bound_consistency_algorithm(
             shr_domain_idx = prop_indices[var_idx]
             events = 0
             shr_domain_min = prop_domains[var_idx, MIN] - prop_offsets[var_idx, 0]  # because of vertical shape
-            if shr_domains_stack[top, shr_domain_idx, MIN] != shr_domain_min:
+            if shr_domains_stack[top, shr_domain_idx, MIN] < shr_domain_min:
                 shr_domains_stack[top, shr_domain_idx, MIN] = shr_domain_min
                 events |= EVENT_MASK_MIN
             shr_domain_max = prop_domains[var_idx, MAX] - prop_offsets[var_idx, 0]  # because of vertical shape
-            if shr_domains_stack[top, shr_domain_idx, MAX] != shr_domain_max:
+            if shr_domains_stack[top, shr_domain_idx, MAX] > shr_domain_max:
                 shr_domains_stack[top, shr_domain_idx, MAX] = shr_domain_max
                 events |= EVENT_MASK_MAX
             if events != 0:
-                if shr_domain_min == shr_domain_max:
+                if shr_domains_stack[top, shr_domain_idx, MIN] > shr_domains_stack[top, shr_domain_idx, MAX]:
+                    # a shared domain used by several variables of the propagator has been filtered to disjoint ranges
+                    return PROBLEM_INCONSISTENT
+                if shr_domains_stack[top, shr_domain_idx, MIN] == shr_domains_stack[top, shr_domain_idx, MAX]:
                     events |= EVENT_MASK_GROUND
                 shr_domains_changes = True
                 add_propagators(
@@ -134,3 +137,15 @@ def bound_consistency_algorithm(
                 )
         if not shr_domains_changes:
             statistics[STATS_IDX_PROPAGATOR_FILTER_NO_CHANGE_NB] += 1
+        else:
+            for var_idx in range(prop_var_end - prop_var_start):
+                shr_domain_idx = prop_indices[var_idx]
+                if (
+                    shr_domains_stack[top, shr_domain_idx, MIN] != prop_domains[var_idx, MIN] - prop_offsets[var_idx, 0]
+                    or shr_domains_stack[top, shr_domain_idx, MAX]
+                    != prop_domains[var_idx, MAX] - prop_offsets[var_idx, 0]
+                ):
+                    # a shared domain used by several variables of the propagator ends up smaller than what the
+                    # propagator computed for one of them: the propagator cannot be assumed to be at its fixpoint
+                    prop_idx = -1
+                    break
